@@ -485,9 +485,9 @@ class Spline(BaseGridder):
         """
         check_is_fitted(self, ["force_"])
         shape = np.broadcast(*coordinates[:2]).shape
-        force_east, force_north = n_1d_arrays(self.force_coords_, n=2)
-        east, north = n_1d_arrays(coordinates, n=2)
-        data = np.empty(east.size, dtype=np.result_type(east.dtype, "float64"))
+        force_east, force_north = n_1d_float_arrays(self.force_coords_)
+        east, north = n_1d_float_arrays(coordinates)
+        data = np.empty(east.size, dtype=east.dtype)
         if parse_engine(self.engine) == "numba":
             data = predict_numba(
                 east, north, force_east, force_north, self.mindist, self.force_, data
@@ -524,8 +524,8 @@ class Spline(BaseGridder):
             The (n_data, n_forces) Jacobian matrix.
 
         """
-        force_east, force_north = n_1d_arrays(force_coords, n=2)
-        east, north = n_1d_arrays(coordinates, n=2)
+        force_east, force_north = n_1d_float_arrays(force_coords)
+        east, north = n_1d_float_arrays(coordinates)
         jac = np.empty((east.size, force_east.size), dtype=dtype)
         if parse_engine(self.engine) == "numba":
             jac = jacobian_numba(
@@ -536,6 +536,19 @@ class Spline(BaseGridder):
                 east, north, force_east, force_north, self.mindist, jac
             )
         return jac
+
+
+def n_1d_float_arrays(coordinates):
+    """
+    Get the easting and northing as 1d floating point arrays.
+
+    Integer coordinates would overflow silently when their differences are
+    squared to calculate distances.
+    """
+    return tuple(
+        np.asarray(i, dtype=np.result_type(i.dtype, "float64"))
+        for i in n_1d_arrays(coordinates, n=2)
+    )
 
 
 def warn_weighted_exact_solution(spline, weights):
